@@ -83,7 +83,7 @@ func scenarios(tier string) []scenario {
 	var out []scenario
 	n := 3
 	if tier == "thorough" {
-		n = 32
+		n = 64
 	}
 	for i := 0; i < n; i++ {
 		out = append(out, scenario{ID: i, Root: i%3 == 1, All: i%5 != 4, BadFirst: i%2 == 0, Stale: i%4 != 3, NTypes: 1 + i%3})
